@@ -101,7 +101,7 @@ def render(out, rng, rich, bang_counter):
     return text, terms, kinds, [x for x in nodes if x is not None]
 
 
-def tlc_generate(tier, seed, wd):
+def tlc_generate(tier, seed, wd, light=False):
     """returns list of `out` sequences (strict-reading sentences with derivation markers)"""
     quick = tier == "quick"
     exh = 6 if quick else 8
@@ -124,6 +124,10 @@ def tlc_generate(tier, seed, wd):
     tape_out = [x["out"] for x in recs]
     if len(tape_out) != ntapes:
         raise ToolError("GrammarGen: %d tapes gave %d sentences" % (ntapes, len(tape_out)))
+    if light:
+        stats = {"exhaustive_bound": exh, "exhaustive_sentences": len(exh_out), "tape_sentences": len(tape_out),
+                 "states": r1.distinct + r2.distinct, "transitions": r1.generated + r2.generated}
+        return exh_out, tape_out, stats
     # context coverage: VIEW-collapsed BFS visits every distinct (pending stack, previous terminal) once; each such
     # context is then completed minimally (Collapse = "*") into a sentence
     cb = 11 if quick else 12
@@ -159,7 +163,7 @@ def generated_programs(tier, seed, limit=None):
     key = (tier, seed)
     if key not in _CACHE:
         wd = common.workdir("gram-%s" % tier)
-        exh, tape, _ = tlc_generate("quick", seed, wd)   # the program source for other checks is the quick set
+        exh, tape, _ = tlc_generate("quick", seed, wd, light=True)   # the program source for other checks is the quick set
         rng = random.Random("%d/render" % seed)
         bc = [0]
         progs = []
